@@ -81,17 +81,99 @@ def _intersperse_init(tier):
     return cases, fails, 'all length tuples with m <= %d, each <= %d' % (M, LEN)
 
 
+def _keyzip_init(tier):
+    """KeyZipDataset(*inputs) is accepted iff all inputs have the same key set (any order); an accepted one delivers,
+    for every key, the tuple of the inputs' examples under that key; unique-key concatenations likewise"""
+    import itertools
+    import lazy_dataset
+    cases, fails = 0, []
+    keys = ['a', 'b', 'c']
+    subsets = [list(c) for r in range(0, 4) for c in itertools.permutations(keys, r)]
+    if tier == 'quick':
+        subsets = [s_ for s_ in subsets if len(s_) != 3 or s_ in (['a', 'b', 'c'], ['c', 'a', 'b'])]
+    bound = 'all ordered key subsets of {a,b,c} for 2 inputs (3 inputs in the thorough tier)'
+    for m in ((2,) if tier == 'quick' else (2, 3)):
+        for combo in itertools.product(subsets, repeat=m):
+            cases += 1
+            dss = [lazy_dataset.new({k: '%s%d' % (k, j) for k in ks}) for j, ks in enumerate(combo)]
+            same = all(set(ks) == set(combo[0]) for ks in combo)
+            try:
+                kz = dss[0].key_zip(*dss[1:])
+                err = None
+            except Exception as e:   # noqa
+                kz, err = None, type(e).__name__
+            sc = 'key_zip of inputs with keys %r' % (combo,)
+            if same and err is not None:
+                fails.append({'scenario': sc, 'mismatches': [{'clause': 'equal key sets are accepted', 'observed': err, 'expected': 'a dataset'}]})
+            elif not same and err is None:
+                fails.append({'scenario': sc, 'mismatches': [{'clause': 'different key sets are refused at construction', 'observed': 'accepted', 'expected': 'AssertionError'}]})
+            elif same and combo[0]:
+                exp = [tuple('%s%d' % (k, j) for j in range(m)) for k in combo[0]]
+                try:
+                    got = list(kz)
+                    got_k = [kz[k] for k in combo[0]]
+                except Exception as e:   # noqa
+                    got = got_k = type(e).__name__
+                if got != exp or got_k != exp or tuple(kz.keys()) != tuple(combo[0]):
+                    fails.append({'scenario': sc, 'mismatches': [{'clause': 'examples paired by key in the first input order', 'observed': repr(got)[:200], 'expected': repr(exp)[:200]}]})
+            if fails:
+                return cases, fails, bound
+    return cases, fails, bound
+
+
+def _concat_keys(tier):
+    """ConcatenateDataset.keys(): refused (AssertionError / ValueError ...) iff some key occurs in two parts -- for every
+    assignment of key sets to 2..4 parts, neighbouring or not"""
+    import itertools
+    import lazy_dataset
+    cases, fails = 0, []
+    pool = [[], ['a'], ['b'], ['a', 'b'], ['c'], ['b', 'c']]
+    bound = 'parts with key sets from %r, 2..%d parts' % (pool, 3 if tier == 'quick' else 4)
+    for m in ((2, 3) if tier == 'quick' else (2, 3, 4)):
+        for combo in itertools.product(pool, repeat=m):
+            cases += 1
+            dss = [lazy_dataset.new({k: '%s%d' % (k, j) for k in ks}) for j, ks in enumerate(combo)]
+            cat = dss[0].concatenate(*dss[1:])
+            allk = [k for ks in combo for k in ks]
+            unique = len(set(allk)) == len(allk)
+            try:
+                got = tuple(cat.keys())
+                err = None
+            except Exception as e:   # noqa
+                got, err = None, type(e).__name__
+            sc = 'concatenate of parts with keys %r' % (combo,)
+            if unique and (err is not None or got != tuple(allk)):
+                fails.append({'scenario': sc, 'mismatches': [{'clause': 'keys() of unique keys', 'observed': err or repr(got), 'expected': repr(tuple(allk))}]})
+            if not unique and err is None:
+                fails.append({'scenario': sc, 'mismatches': [{'clause': 'duplicate keys across parts are refused by keys()', 'observed': repr(got), 'expected': 'an exception'}]})
+            if not unique:
+                dup = [k for k in set(allk) if allk.count(k) > 1][0]
+                try:
+                    v = cat[dup]
+                    fails.append({'scenario': sc, 'mismatches': [{'clause': 'ds[key] of a duplicated key is refused', 'observed': repr(v), 'expected': 'an exception'}]})
+                except Exception:   # noqa
+                    pass
+            if fails:
+                return cases, fails, bound
+    return cases, fails, bound
+
+
 EXTRA_MORE = {
-    'C09': [('bounded-isolation', _mk('isolation', 'new/from_list in pickle, copy, wu mode and memory/disk cache; 7 access paths, miss and hit, nested in-place mutations'))],
+    'C02': [('bounded-offered-lengths', _mk('offered_lengths', 'sources of 0,1,2,5,8 examples; lazy apply (slice / eager filter / tile / shuffle), filter, catch, unbatch, reshuffle, local shuffle, prefetch, dynamic buckets, each also under map / batch / local shuffle: len() is refused or equals the iteration count')),
+            ('bounded-numpy-indices', _mk('numpy_indices', '18 pipelines over 300 examples, 28 boundary indices, np.int8/uint8/int16 (quick) plus uint16/int32/int64 (thorough): ds[dtype(i)] equals ds[int(i)]'))],
+    'C09': [('bounded-isolation-more', _mk('isolation_more', 'example shapes dict / tuple / namedtuple / list with mutable parts; pickle, copy, wu, memory and disk cache; mutation inside a running first-epoch loop, over items(), through a copy, after an aborted epoch, after the next example was requested; re-read by iteration, index, copy')),
+            ('bounded-isolation', _mk('isolation', 'new/from_list in pickle, copy, wu mode and memory/disk cache; 7 access paths, miss and hit, nested in-place mutations'))],
     'C10': [('bounded-cache-histories', _mk('cache_histories', 'all access histories of length 2 (3 thorough) over 17 operations on a 4-example cache with a freshly random upstream; memory threshold crossed after 0..4 stores'))],
     'C14': [('bounded-catch', _mk('catch_epochs', 'sources of 0..7 examples, all failing subsets up to size 3, single type / tuple / subclass, values and items, two epochs, reshuffled upstream over 4 epochs, lazy/eager/FilterException selection'))],
     'C15': [('bounded-split', _mk('split_exhaustive', 'all (n, k, i) with n <= 40 (300 thorough), k in [-1, n+2], shard indices {0, k-1, -1}'))],
-    'C20': [('bounded-profiling-transparency', _mk('profiling_transparency', 'the scenario pipelines of 13 stage classes (every third one in the quick tier), all observations incl. indices [-n-2, n+2), wrapped vs unwrapped, hit counts of the top wrapper'))],
+    'C20': [('bounded-profiling-stage-counts', _mk('profiling_stage_counts', '10 linear element-wise pipelines (map / slice / shuffles / catch / prefetch(1) / cache / sort) over 3 and 6 (1,3,6,9) examples, two epochs: per-stage hits = examples delivered, profiled = identically seeded unprofiled twin')),
+            ('bounded-profiling-transparency', _mk('profiling_transparency', 'the scenario pipelines of 13 stage classes (every third one in the quick tier), all observations incl. indices [-n-2, n+2), wrapped vs unwrapped, hit counts of the top wrapper'))],
     'C19': [('bounded-database', _mk('database', 'descriptions over 4 datasets (0..2 examples) and 6 aliases (overlapping ids, unknown and empty members), 0..3 datasets x 0..2 aliases, 1..3 merged parts, alias section in any part, extra top-level keys; requests: names, aliases, unknown, lists, repeats, after gc; DictDatabase, JsonDatabase, pickled JsonDatabase (every 4th description in the quick tier)'))],
     'C18': [('bounded-sort-groupby', _mk('sort_group', 'all value sequences over {0,1,2} up to length 5 (7 thorough), reverse on/off, incomparable payloads, scalar and tuple group ids'))],
 }
 
 EXTRA_INIT = [('bounded-intersperse-init', _intersperse_init)]
+EXTRA_KEYS = [('bounded-keyzip-init', _keyzip_init), ('bounded-concatenate-keys', _concat_keys)]
 
 EXTRA = {'C16': [('bounded-laws', _laws)], 'C08': [('bounded-demand', _effects)], 'C17': [('bounded-bucket-iter', _bucket)], 'C12': [('bounded-shuffles', _shuffle)],
          'C13': [('bounded-seed-determinism', _shuffle)]}
@@ -137,7 +219,7 @@ def main():
                         'bound': 'source lengths 0..6 and the parameter grid of harness/scenarios.py',
                         'failures': (unexplained or fl)[:5],
                         'known_finding_cases': len(fl) - len(unexplained)})
-        for name, fn in EXTRA.get(a.prop, []) + EXTRA_MORE.get(a.prop, []) + (EXTRA_INIT if a.prop in ('C01', 'C02') else []):
+        for name, fn in EXTRA.get(a.prop, []) + EXTRA_MORE.get(a.prop, []) + (EXTRA_INIT if a.prop in ('C01', 'C02') else []) + (EXTRA_KEYS if a.prop in ('C03', 'C01') else []):
             cases, fails, bound = fn(a.tier)
             out.append({'name': name, 'kind': 'bounded', 'cases': cases, 'bound': bound, 'failures': fails[:5],
                         'known_finding_cases': 0})
